@@ -853,7 +853,15 @@ class TrigTime:
                             this_t = try_t
                 if this_t is not None and (now < this_t or startup):
                     if next_time is None or this_t < next_time:
-                        next_time_adj = next_time = this_t
+                        next_time = this_t
+                        #
+                        # like cron, once() is a local time of day: wait the real time until then, which is
+                        # an hour less or more than the difference if there is a DST change in between
+                        #
+                        next_time_adj = now + (
+                            dt_util.as_local(this_t).astimezone(dt_util.UTC)
+                            - dt_util.as_local(now).astimezone(dt_util.UTC)
+                        )
 
             elif len(match2) == 5:
                 start_str, period_str = match2[1].strip(), match2[2].strip()
